@@ -257,6 +257,9 @@ def _to_dense(it, ctx, a, k):
 @op("linear_operator.operators.DiagLinearOperator")
 def _DiagLO(it, ctx, a, k):
     d = a[0] if a else k["diag"]
+    if len(d.dims) == 0:
+        # linear_operator accepts a 0-d "diagonal": the operator is then the 0-d value itself
+        return _linop(d, "DiagLinearOperator")
     return _linop(E.diag_embed(ctx, d), "DiagLinearOperator")
 
 
